@@ -10,6 +10,7 @@ Tie H.  The real `omega.steps` is run on
 and every call is compared with the Gallina model evaluated in Coq
 (theories/L4Steps) about which Properties/C19.v states the theorems.
 """
+import gc
 import json
 import os
 
@@ -565,12 +566,28 @@ def correspond(ctx):
     mism = []
     groups, meta = [], []
     # (1) steppers
-    runs = gen_steppers(ctx, n_inst, nsteps, 16 if thorough else 8)
     n_calls = n_ok = n_dis = n_other = 0
-    for i, (inst, init_log, step_log) in enumerate(runs):
+    stepper_cases = []       # JSON descriptions only: managers are released
+    n_made = 0
+    sample_stepper = None
+    tries = 0
+    max_states = 16 if thorough else 8
+    while n_made < n_inst and tries < 20 * n_inst:
+        tries += 1
+        got = gen_steppers(ctx, 1, nsteps, max_states)
+        if not got:
+            continue
+        inst, init_log, step_log = got[0]
+        i = n_made
+        n_made += 1
         g, what = stepper_group(i, inst, init_log, step_log)
         groups.append(g)
         meta += [('stepper', i, w) for w in what]
+        case = inst_case(inst)
+        stepper_cases.append(case)
+        if sample_stepper is None:
+            sample_stepper = dict(stepper=case['names'], mode=case['mode'],
+                                  init=init_log, first_calls=step_log[:2])
         for _, res in step_log:
             n_calls += 1
             if res[0] == 'ok':
@@ -579,31 +596,34 @@ def correspond(ctx):
                 n_dis += 1
             else:
                 n_other += 1
-        for what_, case in oracle_stepper(inst, init_log, step_log):
-            mism.append(Mismatch(what_, dict(inst_case(inst), **case),
+        for what_, c in oracle_stepper(inst, init_log, step_log):
+            mism.append(Mismatch(what_, dict(case, **c),
                                  property_fails=True))
+        del inst, got
     # (2) assemblies
-    asm_runs = []
-    n_err = 0
+    asm_cases = []
+    n_err = n_adv = n_okruns = 0
     for i in range(n_asm):
         case = make_assembly(ctx.rng, thorough)
         k = ctx.rng.randint(1, 20 if thorough else 8)
         result, done = run_assembly(case, k)
-        asm_runs.append((case, result, k))
+        cj = asm_case_json(case, k)
+        asm_cases.append((cj, result))
         n_err += result[0] == 'err'
+        n_okruns += result[0] == 'ok'
+        n_adv += bool(case['adversarial'])
         g = assembly_group(i, case, result, k)
         groups.append(g)
         meta.append(('assembly', i, None))
         for what_, c in oracle_assembly(case, result, done):
-            mism.append(Mismatch(what_, dict(asm_case_json(case, k), **c),
-                                 property_fails=True))
+            mism.append(Mismatch(what_, dict(cj, **c), property_fails=True))
         # the stepper calls made inside assemblies are checked too
         for d in case['desc']:
             if d['kind'] == 'AutomatonStepper':
                 lg = case['machines'][d['name']]
                 if lg.init_log is None:
                     continue
-                gi = len(runs) + i
+                gi = n_inst + i
                 g2, what = stepper_group(gi, d['inst'], lg.init_log,
                                          lg.step_log)
                 groups.append(g2)
@@ -613,6 +633,9 @@ def correspond(ctx):
                     mism.append(Mismatch(
                         what_, dict(inst_case(d['inst']), **c),
                         property_fails=True))
+        del case
+        if i % 50 == 49:
+            gc.collect()
     # (3) mangling functions
     mc = mangle_cases(ctx.rng, n_mangle)
     mt = []
@@ -634,18 +657,19 @@ def correspond(ctx):
                     function=w, d=c['d'], prefix=c['prefix'],
                     mvars=c['mvars']), impl=c['res'][w]))
         elif kind == 'assembly':
-            case, result, k = asm_runs[i]
+            cj, result = asm_cases[i]
             mism.append(Mismatch('Assembly run differs from the model',
-                                 asm_case_json(case, k), impl=result))
+                                 cj, impl=result))
         else:
-            inst = runs[i][0] if kind == 'stepper' else [
-                d['inst'] for d in asm_runs[i][0]['desc']
-                if d['kind'] == 'AutomatonStepper'][0]
+            if kind == 'stepper':
+                cj = stepper_cases[i]
+            else:
+                cj = [d['inst'] for d in asm_cases[i][0]['machines']
+                      if d['kind'] == 'AutomatonStepper'][0]
             mism.append(Mismatch(f'{w[0]} differs from the model',
-                                 dict(inst_case(inst), call=w[1])))
+                                 dict(cj, call=w[1])))
     ctx.cov['evaluations'] += len(res)
-    ctx.cov['distinct_nontrivial'] += n_ok + n_dis + sum(
-        1 for c, r, k in asm_runs if r[0] == 'ok')
+    ctx.cov['distinct_nontrivial'] += n_ok + n_dis + n_okruns
     ctx.cov['rule'] = (
         'steppers: random realizable Streett(1) games (1-2 env, 1-2 sys '
         'variables of Boolean/int kinds, optional constant; Moore/Mealy, '
@@ -666,17 +690,15 @@ def correspond(ctx):
         'non-trivial = steps that returned values or were disabled + '
         'assembly runs without error')
     ctx.cov['samples'] = [
-        dict(stepper=inst_case(runs[0][0])['names'], mode=runs[0][0]['mode'],
-             init=runs[0][1], first_calls=runs[0][2][:2]),
-        dict(assembly=asm_case_json(asm_runs[0][0], asm_runs[0][2]),
-             result=asm_runs[0][1] if asm_runs[0][1][0] == 'err'
-             else asm_runs[0][1][1][:2])]
+        sample_stepper,
+        dict(assembly=asm_cases[0][0],
+             result=asm_cases[0][1] if asm_cases[0][1][0] == 'err'
+             else asm_cases[0][1][1][:2])]
     ctx.extra['correspondence'] = dict(
-        stepper_instances=len(runs), stepper_calls=n_calls,
+        stepper_instances=n_made, stepper_calls=n_calls,
         returned_values=n_ok, disabled=n_dis, missing_or_badkey=n_other,
         assemblies=n_asm, assemblies_signalling_error=n_err,
-        adversarial_assemblies=sum(1 for c, r, k in asm_runs
-                                   if c['adversarial']),
+        adversarial_assemblies=n_adv,
         mangle_cases=len(mc), comparisons=len(res), mismatches=len(mism),
         backends=['autoref', 'cudd'], max_steps=nsteps,
         rejected_out_of_range_states=REJECTED['out_of_range'])
